@@ -10,6 +10,9 @@
      MSend          send_data_raw, then the notified transmit
      MPkt chunks    handle_packet (chunk handlers in order), the post-packet transmit, then the
                     notified transmit if a handler stored a permit
+                    -- or, when the packet armed the 1 ms delayed-SACK timer, the sleep branch first
+                    (do_pkt_sleep_first); the alternative that continues the observed packet
+                    stream is taken
      MSilence       a phase in which the harness only listens.  Each timer wake-up of run_loop is
                     the sleep branch (maybe_send_tlp_probe, handle_timeout, heartbeat), the notified
                     transmit and the probe check at the top of the loop.  Which timers had expired
@@ -95,6 +98,19 @@ Definition do_pkt (c : cfg) (s : st) (chunks : list ichunk) : st * list packet :
   let '(s2, o2) := transmit c s1 in
   let '(s3, o3) := settle c s2 in
   (s3, o1 ++ o2 ++ o3).
+
+(* The other legal schedule after a packet that armed the delayed-SACK timer (an in-order DATA chunk;
+   SACK_DELAY = 0, so run_loop computes a 1 ms sleep): if the 1 ms sleep is already due when select!
+   first polls it (the task was preempted for a millisecond), the sleep branch may win over the stored
+   notify permit; it calls maybe_send_tlp_probe unconditionally, i.e. the tail chunk is retransmitted
+   together with the SACK.  Which branch wins is decided by tokio / the OS, not by the case. *)
+Definition do_pkt_sleep_first (c : cfg) (s : st) (chunks : list ichunk) : option (st * list packet) :=
+  let '(s1, o1) := handle_chunks c s chunks in
+  let '(s2, o2) := transmit c s1 in
+  if s_sack_delayed s2 then
+    let '(s3, o3) := settle c (handle_tlp (flush_sack_delay s2)) in
+    Some (s3, o1 ++ o2 ++ o3)
+  else None.
 
 (* `top`: the tail-loss-probe check at the top of run_loop (tlp_timeout(now) <= 1 ms) fires after
    the notified transmit -- it can, because handle_timeout re-arms the probe and the retransmission
@@ -204,10 +220,22 @@ Fixpoint wake_search (cut : bool) (fuel : nat) (c : cfg) (s : st) (rem : list op
   end.
 
 (* ---------------------------------------------------------------- running a case *)
-Definition do_mop (c : cfg) (s : st) (m : mop) (obs : list opkt) : st * list packet :=
+Definition non_hback (l : list opkt) : list opkt := filter (fun p => negb (is_hback_pkt p)) l.
+
+(* `stream`: the packets observed from here on (all operations, fence echoes removed) *)
+Definition do_mop (c : cfg) (s : st) (m : mop) (obs stream : list opkt) : st * list packet :=
   match m with
   | MSend sid ppid p => settle c (enqueue c s sid ppid (pay_bytes p))
-  | MPkt chunks => do_pkt c s chunks
+  | MPkt chunks =>
+      let a := do_pkt c s chunks in
+      match do_pkt_sleep_first c s chunks with
+      | None => a
+      | Some b =>
+          match strip_prefix (non_hback (canon (snd a))) stream with
+          | Some _ => a
+          | None => match strip_prefix (non_hback (canon (snd b))) stream with Some _ => b | None => a end
+          end
+      end
   | MSilence =>
       match wake_search false (S (length obs)) c s obs with
       | Some r => r
@@ -218,18 +246,20 @@ Definition do_mop (c : cfg) (s : st) (m : mop) (obs : list opkt) : st * list pac
       end
   end.
 
-Fixpoint run_mops (c : cfg) (s : st) (ms : list mop) (obs : list (list opkt)) : st * list (list packet) :=
+Fixpoint run_mops (c : cfg) (s : st) (ms : list mop) (obs : list (list opkt)) (stream : list opkt)
+  : st * list (list packet) :=
   match ms with
   | [] => (s, [])
   | m :: rest =>
       let o := match obs with [] => [] | o :: _ => o end in
-      let '(s1, out1) := do_mop c s m o in
-      let '(s2, outs) := run_mops c s1 rest (tl obs) in
+      let '(s1, out1) := do_mop c s m o stream in
+      let '(s2, outs) := run_mops c s1 rest (tl obs) (skipn (length (non_hback (canon out1))) stream) in
       (s2, out1 :: outs)
   end.
 
 Definition model_packets (k : case) : list packet :=
-  concat (snd (run_mops (k_cfg k) (init_state (k_init_tsn k) (k_peer_rwnd k) (k_peer_tsn k)) (k_ops k) (k_obs k))).
+  concat (snd (run_mops (k_cfg k) (init_state (k_init_tsn k) (k_peer_rwnd k) (k_peer_tsn k)) (k_ops k) (k_obs k)
+                        (non_hback (concat (k_obs k) ++ k_tail k)))).
 Definition model_out (k : case) : list opkt := map (fun p => strip_empty (to_opkt p)) (model_packets k).
 
 Definition split_hback (l : list opkt) : list opkt * list opkt :=
